@@ -690,6 +690,7 @@ type inlNode struct {
 	arr   *atree.Array
 	mp    *atree.OrderedMap
 	nKeys int
+	named bool // composite map whose keys are field names (hx.NK, codecnamed.go)
 }
 
 func (n *inlNode) value() atree.Value {
@@ -709,6 +710,7 @@ type inlEnv struct {
 	tys   []uint64
 	newB  func() atree.DigesterBuilder // every map needs its own (seeded) builder
 	nodes []*inlNode
+	named bool // composite maps are keyed by field names (hx.NK)
 }
 
 func (x *inlEnv) plain() hx.TV {
@@ -764,6 +766,12 @@ func (x *inlEnv) build(depth int, compactOnly bool) *inlNode {
 	if kind == 2 {
 		cnt = 1 + rng.Intn(4)
 	}
+	var names []string
+	if kind == 2 && x.named {
+		n.named = true
+		names = x.nkSubset(cnt)
+		x.e.st.Hit("inline:named-compact")
+	}
 	for i := 0; i < cnt; i++ {
 		var v atree.Value = x.plain()
 		if depth > 0 && rng.Intn(3) == 0 {
@@ -780,9 +788,12 @@ func (x *inlEnv) build(depth int, compactOnly bool) *inlNode {
 			err = n.arr.Append(v)
 		} else {
 			n.nKeys++
-			k := hx.TV{Size: 9, Pay: uint64(i + 1)}
+			var k atree.Value = hx.TV{Size: 9, Pay: uint64(i + 1)}
 			if kind == 2 && rng.Intn(4) == 0 {
 				k = hx.TV{Size: uint32(2 + rng.Intn(12)), Pay: uint64(50 + rng.Intn(5))}
+			}
+			if n.named {
+				k = hx.NK{Name: names[i]}
 			}
 			_, err = n.mp.Set(hx.CompareKey, hx.HashInput, k, v)
 		}
@@ -799,7 +810,7 @@ func (e *codecEnv) runInlineProgram(rng *rand.Rand, T uint32, nOps int, compact 
 	atree.VerifSetThreshold(T)
 	ledger := hx.NewLedger()
 	ps := hx.NewStorage(ledger)
-	x := &inlEnv{e: e, rng: rng, ps: ps, T: T, addr: hx.MkAddr(uint64(1 + rng.Intn(1<<16))), newB: atree.NewDefaultDigesterBuilder}
+	x := &inlEnv{e: e, rng: rng, ps: ps, T: T, addr: hx.MkAddr(uint64(1 + rng.Intn(1<<16))), newB: atree.NewDefaultDigesterBuilder, named: e.named}
 	if rng.Intn(4) == 0 {
 		x.addr = hx.MkAddr(rng.Uint64() | 1)
 	}
@@ -820,7 +831,7 @@ func (e *codecEnv) runInlineProgram(rng *rand.Rand, T uint32, nOps int, compact 
 		x.tys = []uint64{1, 2, 3, 24, 256, 1 << 33}
 	}
 	if emit {
-		e.w.L("CFG T=%d inline compact=%v", T, compact)
+		e.w.L("CFG T=%d inline compact=%v named=%v", T, compact, x.named)
 	}
 	var parent *inlNode
 	rootIsMap := rng.Intn(3) == 0
@@ -874,7 +885,11 @@ func (e *codecEnv) runInlineProgram(rng *rand.Rand, T uint32, nOps int, compact 
 					_, err = n.arr.Remove(uint64(rng.Intn(int(cnt))))
 				}
 			} else {
-				k := hx.TV{Size: 9, Pay: uint64(1 + rng.Intn(n.nKeys+1))}
+				var k atree.Value = hx.TV{Size: 9, Pay: uint64(1 + rng.Intn(n.nKeys+1))}
+				if n.named {
+					// (add, overwrite or remove a field: the map's compact type changes with its field set)
+					k = hx.NK{Name: nkNames[rng.Intn(len(nkNames))]}
+				}
 				if rng.Intn(4) == 0 {
 					_, _, err = n.mp.Remove(hx.CompareKey, hx.HashInput, k)
 					if err != nil && hx.ErrKind(err) == "KeyNotFound:User" {
